@@ -47,9 +47,19 @@ def gen_graph(rng, n):
     return nodes
 
 
+def deep_chain(n, known, ss, seed):
+    """n directories nested in one another, a content at the bottom (depths beyond the recursion limit)"""
+    nodes = [["c", 0, []]] + [["d", i, [i - 1]] for i in range(1, n)]
+    return {"nodes": nodes, "known": known, "order": list(range(n)), "sample_size": ss, "sched_seed": seed}
+
+
 def generate(ctx):
     rng = ctx.rng
     cases = []
+    n_deep = 1300
+    cases.append(deep_chain(n_deep, [], 1000, 4))          # nothing known: "unknown" climbs from wherever sampling starts
+    cases.append(deep_chain(n_deep, list(range(n_deep)), 1000, 8))  # everything known: "known" descends from the top
+    cases.append(deep_chain(n_deep, list(range(n_deep // 2)), 3, 12))
     for _ in range(ctx.budget(250, 4000)):
         n = rng.choice([0, 1, 2, 3, 5, 8, 12, 20, 30, 40])
         nodes = gen_graph(rng, n)
@@ -139,7 +149,7 @@ def check_cases(ctx, cases):
         def nid(b):
             if b in num:
                 return num[b]
-            return outside.setdefault(b, 1000 + len(outside))
+            return outside.setdefault(b, 10**6 + len(outside))
 
         srng = _random.Random(case["sched_seed"])
         pops, samples, log, queries = [], [], [], [0]
